@@ -211,6 +211,19 @@ var scenarios = []schedrig.Scenario{
 		w.Order("A", 2)
 		w.Vx.Close()
 	}},
+	{Name: "suspend-resume-in-band-resize", Queue: 8, Caps: refterm.CapRGB | refterm.CapSync | refterm.CapInBandResize | refterm.CapSizeReports, Body: func(w *schedrig.World) {
+		// the same on a terminal that reports its size in band (Resume takes another path there): the final
+		// Close stops the goroutines that Resume started and restores the terminal
+		if err := w.Vx.Suspend(); err != nil {
+			w.Failf("suspend", "Suspend: %v", err)
+		}
+		if err := w.Vx.Resume(); err != nil {
+			w.Failf("resume", "Resume: %v", err)
+		}
+		schedrig.TypeBytes(w, "k", "k")
+		w.Until(func() bool { return w.Seen("key:k") })
+		w.Vx.Close()
+	}},
 	{Name: "suspend-with-escape", Queue: 8, Body: func(w *schedrig.World) {
 		schedrig.TypeBytes(w, "esc", "\x1b")
 		w.Vx.Suspend()
